@@ -133,6 +133,22 @@ Theorem C11_step_of_ok : forall decode c env s bytes i s1,
   = (Ok (negb (finished (after_step s1))), after_step s1).
 Proof. intros decode c env s bytes i s1 Hf Hl Hb Hd Hs Hn. exact (step_of_ok decode c env s bytes i Hf Hl Hb Hd Hs Hn s1). Qed.
 
+(* ... and when the instruction function reports an error (other than the top-level-return signal,
+   which only RET produces and which the step turns into success + finished) the step reports that
+   error with the instruction function's state: the counter is NOT incremented and the after-hooks do
+   not run.  With the refinement theorems' fault clauses this is "a failing instruction is a failing
+   step" (instantiated end to end in C06_step_mov_r64_m64). *)
+Theorem C11_step_of_err : forall decode c env s bytes i s1 e,
+  finished s = false ->
+  (match max_instr s with Some limit => limit <=? icount s | None => false end) = false ->
+  mem_read_executable_bytes (regs s RIP) s = (Ok bytes, s) ->
+  decode (regs s RIP) bytes = Some i ->
+  supported_mnemonic_try_from c (i_mnemonic i) (entered s i) = (Ok (i_mnemonic i), entered s i) ->
+  env (i_mnemonic i) = None ->
+  switch_instruction_mnemonic c i (entered s i) = (Err e, s1) -> e <> EFinish ->
+  Exec.step decode switch_instruction_mnemonic supported_mnemonic_try_from c env s = (Err e, s1).
+Proof. intros decode c env s bytes i s1 e Hf Hl Hb Hd Hs Hn. exact (step_of_err decode c env s bytes i Hf Hl Hb Hd Hs Hn s1 e). Qed.
+
 (* ... instantiated once, end to end: one step over ADD r/m64, r64 is the ISA specification's ADD on
    the state with RIP advanced, then the bookkeeping *)
 Theorem C11_step_add_rm64_r64 : forall decode c env s bytes i,
@@ -160,3 +176,4 @@ Print Assumptions C11_execute_is_stepping.
 Print Assumptions C11_instruction_frame.
 Print Assumptions C11_step_of_ok.
 Print Assumptions C11_step_add_rm64_r64.
+Print Assumptions C11_step_of_err.
